@@ -555,9 +555,20 @@ func (v *parser_) parseIntrinsic() (
 	}
 	_, token, ok = v.parseToken(ComplexToken, "")
 	if ok {
-		var complex_, err = stc.ParseComplex(token.GetValue(), 128)
+		// The real and imaginary parts are floats with their own optional
+		// signs, which strconv.ParseComplex() does not accept: (1.0+-2.0i).
+		var text = token.GetValue()
+		var matches = Scanner().MatchToken(ComplexToken, text)
+		var realText = matches.GetValue(2)
+		var real_, err = stc.ParseFloat(realText, 64)
 		v.checkLiteral(token, err)
-		intrinsic = complex_
+		var imag_ float64
+		imag_, err = stc.ParseFloat(matches.GetValue(3), 64)
+		v.checkLiteral(token, err)
+		if text[1+len(realText)] == '-' {
+			imag_ = -imag_
+		}
+		intrinsic = complex(real_, imag_)
 		return intrinsic, token, true
 	}
 	_, token, ok = v.parseToken(FloatToken, "")
